@@ -190,6 +190,47 @@ fn partially_backed_index(k: u32, real: usize, entry: (i32, i32)) -> Vec<u8> {
     f
 }
 
+/// A record declaring 2^k points but no part that contains any of them (zero parts, or part
+/// offsets equal to the point count), with a record length that matches the declared counts
+/// including the M block (mod 2^32), followed by 64 bytes: enough for the Z and M ranges.
+fn zero_parts_record(t: i32, k: u32, variant: u8) -> Vec<u8> {
+    let npts: i64 = 1i64 << k;
+    let nparts: i64 = variant as i64;
+    let per_point: i64 = match t {
+        3 | 5 => 16,
+        23 | 25 => 24,
+        _ => 32,
+    };
+    let ranges: i64 = match t {
+        3 | 5 => 0,
+        23 | 25 => 16,
+        _ => 32,
+    };
+    let kinds: i64 = if t == 31 { 4 * nparts } else { 0 };
+    let content: i64 = 4 + 32 + 8 + 4 * nparts + kinds + per_point * npts + ranges;
+    let words = ((content as u64 & 0xffff_ffff) / 2) as u32 as i32;
+    let mut f = vec![0u8; 100];
+    put(&mut f, 0, 9994, true);
+    put(&mut f, 28, 1000, false);
+    put(&mut f, 32, t, false);
+    f.extend_from_slice(&1i32.to_be_bytes());
+    f.extend_from_slice(&words.to_be_bytes());
+    f.extend_from_slice(&t.to_le_bytes());
+    f.extend_from_slice(&[0u8; 32]);
+    f.extend_from_slice(&(nparts as i32).to_le_bytes());
+    f.extend_from_slice(&(npts as u32 as i32).to_le_bytes());
+    for _ in 0..nparts {
+        f.extend_from_slice(&(npts as u32 as i32).to_le_bytes());
+    }
+    for _ in 0..nparts {
+        if t == 31 {
+            f.extend_from_slice(&2i32.to_le_bytes());
+        }
+    }
+    f.extend_from_slice(&[0u8; 64]);
+    f
+}
+
 /// An index file declaring 2^k entries with nothing behind them.
 fn unbacked_index(k: u32) -> Vec<u8> {
     let mut f = vec![0u8; 100];
@@ -260,7 +301,28 @@ pub fn enumerate(bases: &[Base], ctx: &Ctx, want: &dyn Fn(u64) -> bool, f: &mut 
             }
         }
     }
-    // (a'') pairs of key fields mutated together (thorough)
+    // (a'') quick: the record type code together with the record content length / the header
+    //       type (e.g. a NullShape record with a negative length); thorough: all pairs below
+    if !thorough {
+        let pv: [i32; 7] = [0, -1, 2, i32::MIN, -(1 << 30), i32::MAX, 1 << 30];
+        for (bi, b) in bases.iter().enumerate() {
+            let recs = rawshp::walk(&b.shp);
+            for rec in recs.iter() {
+                for &tc in &gen::ALL_CODES {
+                    for &v in &pv {
+                        for with_shx in [false, true] {
+                            case!({
+                                let mut m = b.shp.clone();
+                                put(&mut m, rec.off + 8, tc, false);
+                                put(&mut m, rec.off + 4, v, true);
+                                Input { shp: m, shx: if with_shx { Some(b.shx.clone()) } else { None }, desc: format!("base{} t{} record@{}: type code={} & content length={} shx={}", bi, b.t, rec.off, tc, v, with_shx), class: "a:type-code+length-pair" }
+                            });
+                        }
+                    }
+                }
+            }
+        }
+    }
     if thorough {
         let pv: [i32; 8] = [0, -1, 1, i32::MAX, i32::MIN, 1 << 28, 1 << 30, 0x1000_0002];
         for (bi, b) in bases.iter().enumerate() {
@@ -393,6 +455,26 @@ pub fn enumerate(bases: &[Base], ctx: &Ctx, want: &dyn Fn(u64) -> bool, f: &mut 
             let b = &bases[0];
             Input { shp: b.shp.clone(), shx: Some(unbacked_index(k)), desc: format!("index header declares 2^{} entries", k), class: "e:consistent-but-unbacked" }
         });
+    }
+    // (e') the same with ZERO parts (or all part offsets equal to the point count): no XY data is
+    //      due, so the reader gets as far as the Z / M ranges, which are present, before data runs out
+    for &t in &[3, 5, 13, 15, 23, 25, 31] {
+        for k in [10u32, 16, 20, 24, 26, 28, 30] {
+            for variant in 0..3u8 {
+                for followed in [false, true] {
+                    case!({
+                        let mut f = zero_parts_record(t, k, variant);
+                        if followed {
+                            // a small valid record after the hostile one
+                            f.extend_from_slice(&bases[0].shp[100..]);
+                        }
+                        let w = (f.len() / 2) as i32;
+                        put(&mut f, 24, w, true);
+                        Input { shp: f, shx: None, desc: format!("t{} declares 2^{} points in {} parts, ranges present, no coordinates", t, k, ["zero", "one (offset = point count)", "two (offsets = point count)"][variant as usize]), class: "e:consistent-but-unbacked" }
+                    });
+                }
+            }
+        }
     }
     // (f) partially backed counts: real data up to amounts around powers of two, then nothing
     let reals: Vec<usize> = if cfg!(miri) {
